@@ -124,7 +124,8 @@ def parse_reused(text, default='en', stop=False):
 def parse_routes(text, default='en', acc=None):
     """[(route name, result)]: fresh instances, then instances that have parsed other documents before."""
     return [('fresh parser', parse(text, default=default, acc=acc)),
-            ('parser and matcher that parsed other documents before', parse_reused(text, default))]
+            ('parser and matcher that parsed other documents before', parse_reused(text, default)),
+            ('fresh parser in stop-at-first-error mode with an explicitly passed matcher', parse(text, stop=True, matcher=TokenMatcher(default)))]
 
 
 def full(text, stop=False, default='en', acc=None, uri='u'):
@@ -143,10 +144,21 @@ def full(text, stop=False, default='en', acc=None, uri='u'):
 
 
 class TokenRecorder(TokenFormatterBuilder):
-    """The library's token formatter, additionally keeping the raw tokens."""
+    """The library's token formatter, additionally keeping the tokens it was given (in a list of our own: nothing here
+    depends on how the formatter stores them)."""
+
+    def reset(self):
+        super().reset()
+        self.seen = []
+
+    def build(self, token):
+        if not hasattr(self, 'seen'):
+            self.seen = []
+        self.seen.append(token)
+        super().build(token)
 
     def tokens(self):
-        return list(self._tokens)
+        return list(getattr(self, 'seen', []))
 
 
 def tokens(text, default='en', stop=False):
